@@ -209,6 +209,9 @@ func (g *Gen) havocComps(h Heap, comps []string, hint string) Heap {
 		if c == "ALLOC" {
 			old := g.hget(h, c)
 			g.S.assert(fmt.Sprintf("(forall ((r Ref)) (! (=> (select %s r) (select %s r)) :pattern ((select %s r))))", old, n, n))
+			if init := g.initSym(c); init != old {
+				g.S.assert(fmt.Sprintf("(forall ((r Ref)) (! (=> (select %s r) (select %s r)) :pattern ((select %s r))))", init, n, n))
+			}
 			g.S.assert(not(sel(n, "null")))
 		}
 		h[c] = n
@@ -500,6 +503,9 @@ func (g *Gen) havocDesignator(env *Env, item string, h Heap) (Heap, error) {
 		return g.havocAll(h), nil
 	case "alloc":
 		return g.allocHavoc(h), nil
+	}
+	if strings.HasPrefix(item, "comp:") {
+		return g.havocComps(h, []string{strings.TrimPrefix(item, "comp:")}, "assigns"), nil
 	}
 	if gv, ok := g.P.Contract.Ghosts[item]; ok {
 		comp, _, _ := g.ghostComp(gv)
@@ -1004,6 +1010,9 @@ func (g *Gen) designatorTarget(env *Env, item string) (string, string, error) {
 		return "*", "", nil
 	case "alloc":
 		return "ALLOC", "", nil
+	}
+	if strings.HasPrefix(item, "comp:") {
+		return strings.TrimPrefix(item, "comp:"), "", nil
 	}
 	if gv, ok := g.P.Contract.Ghosts[item]; ok {
 		comp, _, _ := g.ghostComp(gv)
